@@ -234,7 +234,7 @@ pub fn observe_sparse(r: &mut RLN, d: usize, touched: &BTreeSet<usize>, it: &mut
         level = up;
     }
     let mut proofs = Vec::new();
-    for &i in touched.iter().take(6) {
+    for i in crate::tree_exec::proof_positions(touched, next) {
         proofs.push(obs_proof(r, i, vals.get(&i).cloned(), it));
     }
     o["proofs"] = json!(proofs);
@@ -269,37 +269,7 @@ pub fn apply(r: &mut RLN, op: &Value) -> color_eyre::Result<()> {
     }
 }
 
-pub fn touched_by(op: &Value, next_before: usize, out: &mut BTreeSet<usize>, cap: usize) {
-    let mut add = |i: usize| {
-        if i < cap {
-            out.insert(i);
-        }
-    };
-    match op["c"].as_str().unwrap() {
-        "set" | "delete" => add(op["i"].as_u64().unwrap() as usize),
-        "append" => add(next_before),
-        "range" | "override" | "init" => {
-            let s = op.get("s").and_then(|x| x.as_u64()).unwrap_or(0) as usize;
-            let n = op["vs"].as_array().unwrap().len();
-            for k in 0..n {
-                add(s + k);
-            }
-            if let Some(rem) = op.get("rem").and_then(|x| x.as_array()) {
-                for x in rem {
-                    add(x.as_u64().unwrap() as usize);
-                }
-                // the known deviant batch (persistent backend) writes start-min(rem)+n values at start:
-                // watch that whole span (bounded) so that the observation stays complete
-                let min = rem.iter().map(|x| x.as_u64().unwrap() as usize).min().unwrap_or(s);
-                let span = if s > min { s - min + n } else { n } + 8;
-                for k in 0..span.min(4096) {
-                    add(s + k);
-                }
-            }
-        }
-        _ => {}
-    }
-}
+pub use crate::tree_exec::touched_by;
 
 pub fn run(scenario: &[Value], it: &mut Interner, out: &mut Vec<Value>) {
     let mut rln: Option<RLN> = None;
